@@ -43,14 +43,19 @@ THEOREMS = [
     "C05.map_derivations", "C05.map_items", "C05.map_string_keys", "C05.dict_key_order",
     "C05.dict_last_value", "C05.seq_items", "C05.empty_and_absent", "C05.final_delim", "C05.final_delim_map",
     "C05.nesting", "C05.nesting_every_derivation", "C05.end_to_end_json_partial",
-    "C05.lines_cut_at_newline_only", "C05.parse_has_no_memory", "C05.squash_around_items",
-    "C05.no_exceptions", "C05.any_token_except", "C05.squash_data",
+    "C05.lines_cut_at_newline_only", "C05.seq_items_executed", "C05.constructor_is_ll_constructor",
+    "C05.squash_around_items", "C05.no_exceptions", "C05.any_token_except", "C05.squash_data",
 ]
 
 RULE = ("one case = one grammar (real LLParser rebuilt from a JSON spec) + 8-14 rendered values, or 20 template "
         "constructor calls, or one un-flattened sequence; distinct by protocol text; non-trivial = at least one text whose "
         "value holds a container with >= 2 entries or nesting depth >= 2 (template / sequence cases always)")
-TRUSTED = ["the tokenizer's regular expression (lexemes are data; renaming and skipping are modelled by the LL model)",
+TRUSTED = ["constructT (C05) and LL.constructG (C01-C03) are linked by C05.constructor_is_ll_constructor (success of constructT "
+           "implies the same parser from constructG on the expanded productions); error outcomes of the two constructors are "
+           "tied to the code separately, each by its own correspondence",
+           "a parser object has no memory between calls: true by construction in the functional model, tied to the real "
+           "object only by the call sequences (failing calls before valid texts) of the correspondence",
+           "the tokenizer's regular expression (lexemes are data; renaming and skipping are modelled by the LL model)",
            "for the cl/g lines only: the real raw tree and the real factorised prods_map enter as data (the tp/tc/G lines "
            "compute both inside the model)"]
 ASSUMPTIONS = ["item symbol differs from the bracket and delimiter symbols of its ListProds (hypothesis WF of the "
@@ -1944,7 +1949,9 @@ LEVEL_TEXT = (
     "order, each cleaned with for_container=True, leaves replaced by their value, with exactly the two documented "
     "adjustments (list_items, map_items; no hypothesis on key/assign/value symbols, they may coincide); dict(kv_pairs) keeps "
     "first-occurrence key order and the last value (map_string_keys, dict_key_order, dict_last_value); sequences are "
-    "flattened in order and cleaned element-wise without loss (seq_items); every symbol given to ProdSequence / a production "
+    "flattened in order and cleaned element-wise without loss (seq_items; seq_items_executed: the driver's toVal gives exactly "
+    "flattenSeq's leaf); C05's constructor is the LL model's constructG after template expansion "
+    "(constructor_is_ll_constructor); every symbol given to ProdSequence / a production "
     "list is honoured wherever AnyTokenExcept stands (any_token_except); empty brackets give [] / {}, absent optional "
     "containers keep None (empty_and_absent); a bare final delimiter can be derived only when allowed and never changes the "
     "result (final_delim, final_delim_map); for the json-like grammar the clean-up of any tree denoting nested data d is "
